@@ -75,6 +75,14 @@ EXAMPLE_WANT = {'peek_dirty': [lazy.DIRTY], 'peek_clean': [lazy.CLEAN], 'peek_re
 
 
 def family(repo: Repo) -> lazy.Family:
+    cached = repo.__dict__.get('_c13_family')
+    if cached is None:
+        cached = _family(repo)
+        repo.__dict__['_c13_family'] = cached
+    return cached
+
+
+def _family(repo: Repo) -> lazy.Family:
     root_mod = repo.module(ARGLIST)
     root_cls = root_mod.cls(ROOT)
     members: T.List[T.Tuple[Module, ast.ClassDef]] = [(root_mod, root_cls)]
